@@ -304,4 +304,72 @@ theorem run_fuel_irrelevant {T : Table} (f g : Nat) {s : MState}
       simp only [hs] at hf
       exact ih g' hf (by omega)
 
+/-! ### the table-independent part of the invariant: no name twice on a chain -/
+
+/-- no origin chain contains a name twice -/
+def ChainsNodup (s : MState) : Prop := ∀ c ∈ s.pre ++ s.rest, c.chain.Nodup
+
+theorem markLc_pred {P : List String → Prop} {l : List SChar} (h : ∀ c ∈ l, P c.chain) :
+    ∀ c ∈ markLc l, P c.chain := by
+  intro c hc
+  have : c.chain ∈ (markLc l).map (·.chain) := List.mem_map.mpr ⟨c, hc, rfl⟩
+  rw [markLc_chains] at this
+  obtain ⟨c', hc', he⟩ := List.mem_map.mp this
+  rw [← he]; exact h c' hc'
+
+/-- preserved by a step with ANY table (the table may differ from step to step) -/
+theorem nodup_step {T : Table} {s s' : MState} (hi : ChainsNodup s) (h : step T s = some s') :
+    ChainsNodup s' := by
+  have hp : ∀ c ∈ s.pre, c.chain.Nodup := fun c hc => hi c (List.mem_append_left _ hc)
+  have hr : ∀ c ∈ s.rest, c.chain.Nodup := fun c hc => hi c (List.mem_append_right _ hc)
+  have hbefore : ∀ c ∈ (markLc (s.rest.take (skipLen s.rest))).reverse ++ s.pre, c.chain.Nodup := by
+    intro c hc
+    rcases List.mem_append.mp hc with h1 | h2
+    · exact markLc_pred (P := List.Nodup) (fun c hc => hr c (List.mem_of_mem_take hc)) c
+        (List.mem_reverse.mp h1)
+    · exact hp c h2
+  intro c hc
+  cases step_rel h with
+  | subst c0 tl a cmd name asg hdrop hkind hsub hnot hlook hwhy hpre hrest =>
+    obtain ⟨hc0, htl⟩ := mem_rest_of_drop hdrop
+    rw [hpre, hrest] at hc
+    rcases List.mem_append.mp hc with h1 | h2
+    · exact hbefore c h1
+    · rcases List.mem_append.mp h2 with h3 | h4
+      · simp only [spliceChars, List.mem_map] at h3
+        obtain ⟨_, _, rfl⟩ := h3
+        simp only [List.nodup_cons]
+        refine ⟨?_, hr c0 hc0⟩
+        rw [(lookup_spec hlook).2]
+        simpa [SChar.isAliasFor] using hnot
+      · exact hr c (htl c (List.mem_of_mem_drop h4))
+  | take c0 tl hdrop hel hpre hrest =>
+    obtain ⟨hc0, htl⟩ := mem_rest_of_drop hdrop
+    rw [hpre, hrest] at hc
+    rcases List.mem_append.mp hc with h1 | h2
+    · rcases List.mem_append.mp h1 with h3 | h4
+      · exact hr c (htl c (List.mem_of_mem_take (List.mem_reverse.mp h3)))
+      · rcases List.mem_cons.mp h4 with rfl | h5
+        · exact hr _ hc0
+        · exact hbefore c h5
+    · exact hr c (htl c (List.mem_of_mem_drop h2))
+
+theorem nodup_lstep {l l' : LState} (hi : ChainsNodup l.m) (h : lstep l = some l') : ChainsNodup l'.m := by
+  unfold lstep at h
+  split at h
+  · cases h
+  · rename_i m' hm
+    have := nodup_step hi hm
+    split at h <;> (cases h; exact this)
+
+theorem nodup_lrun (f : Nat) {l : LState} (hi : ChainsNodup l.m) : ChainsNodup (lrun f l).1.m := by
+  induction f generalizing l with
+  | zero => simpa [lrun] using hi
+  | succ f ih =>
+    unfold lrun
+    split
+    · exact hi
+    · rename_i l' hl
+      exact ih (nodup_lstep hi hl)
+
 end YashModel.Alias
